@@ -216,3 +216,22 @@ Theorem C12_payload_guards_from_source_partial : forall sx e,
 Proof. exact (fun sx e => conj (FootProofs.wrong_size_refused sx e) (FootProofs.size_refusal_is_wrong_size sx e)). Qed.
 Print Assumptions C12_payload_guards_from_source_partial.
 (* ==== end of block (unit footprint) ==== *)
+
+(* ==== stepping functions from source (unit stepper) ==== *)
+(* The refusals of the stream layer are those of the C source: stream_step regenerated from src/emu/stream.c
+   (Gen/Stepper_gen.v) equals its hand-written reading m_stream_step for every state (first statement), and
+   from a state of the walk it returns -1 exactly when StreamDefs.stream_step (the model the C12 stream
+   theorems are about) gives an error: offset beyond the size, incomplete event, clock going backwards. *)
+From OV Require Emu.StepperPre Gen.Stepper_gen Proofs.StepperProofs Proofs.StreamProofs.
+
+Theorem C12_stream_step_from_source :
+  (forall sx st id, (id < length (StepperPre.streams st))%nat ->
+     Stepper_gen.stream_step (Some id) sx st = StepperPre.lift_step st id (StepperPre.m_stream_step st id)) /\
+  (forall sx st id, (id < length (StepperPre.streams st))%nat ->
+     let g := nth id (StepperPre.streams st) StepperPre.g0 in
+     StepperProofs.gwf id g -> StreamProofs.inv (StepperProofs.abs g) -> s_size (StepperProofs.abs g) < 2 ^ 63 ->
+     ((exists e, stream_step (StepperProofs.abs g) = RErr e) <->
+      Stepper_gen.stream_step (Some id) sx st = StepperPre.Fail StepperPre.E_FAIL)).
+Proof. exact StepperProofs.stream_refusals_from_source. Qed.
+Print Assumptions C12_stream_step_from_source.
+(* ==== end of block (unit stepper) ==== *)
